@@ -56,7 +56,8 @@ def norm(x):
 
 def reference(pid):
     """pristine and mutated views of every (function, input, mode), computed in a fresh interpreter per mode --
-    a process with no history at all"""
+    a process with no history at all, and with another system time zone and locale than the checking process
+    (results must not depend on either)"""
     import os
     import subprocess
     import sys
@@ -64,7 +65,7 @@ def reference(pid):
     out = {}
     for m, prov in PROVIDERS.items():
         p = subprocess.run([sys.executable, "-c", f"from vf import fresh; fresh._print_reference({pid!r}, {m})"], capture_output=True, text=True,
-                           cwd=str(VERIF), env=dict(os.environ), timeout=900)
+                           cwd=str(VERIF), env=dict(os.environ, TZ=("Pacific/Kiritimati", "America/Adak")[m - 1], LC_ALL="C"), timeout=900)
         if p.returncode != 0:
             raise Machinery(f"FRESH reference subprocess failed: {p.stderr[-800:]}")
         for name, d in json.loads(p.stdout.strip().splitlines()[-1]).items():
